@@ -76,44 +76,55 @@ def lookupLoop (s : St) (t : Nat) (loc : Loc) : St × List Ev :=
       let s := { s with cache := PyDict.set s.cache loc (.marker e), nextEvt := e + 1 }
       ((s.setPc t (.waitDl d e)).emit (.requested t loc), [.requested t loc])
 
+def eraseIfOurs (s : St) (loc : Loc) (e : Nat) : St :=
+  if PyDict.get? s.cache loc = some (.marker e) then { s with cache := PyDict.erase s.cache loc } else s
+
+def storeIfOurs (s : St) (loc : Loc) (e : Nat) (v : Out) : St :=
+  if PyDict.get? s.cache loc = some (.marker e) then { s with cache := PyDict.set s.cache loc (.result v) } else s
+
 /-- the `finally:` block: remove the marker if it is still ours, then `evt.set()` -/
-def finallyBlock (s : St) (loc : Loc) (e : Nat) : St :=
-  let s := if PyDict.get? s.cache loc = some (.marker e) then { s with cache := PyDict.erase s.cache loc } else s
-  s.setEvent e
+def finallyBlock (s : St) (loc : Loc) (e : Nat) : St := (s.eraseIfOurs loc e).setEvent e
+
+/-- the coroutine of task `t` ends (`ev` says how) -/
+def finish (s : St) (t : Nat) (ev : Ev) : St :=
+  ({ s with ts := s.ts.modify t fun _ => { pc := .done, mustCancel := false } }).emit ev
+
+/-- a handle for a task that awaits a download which is neither released nor cancelled cannot be in
+    the ready queue; the model treats such a step as a no-op -/
+def blocked (s : St) (k : TState) : Bool :=
+  !k.mustCancel && match k.pc with
+    | .waitDl d _ => ((s.mon.dls[d]?).bind (·.outcome)).isNone
+    | _ => false
+
+/-- one step of task `t` (its handle already popped from the ready queue) -/
+def stepTask (s : St) (t : Nat) (k : TState) : St × List Ev :=
+  let loc := s.locOf t
+  if k.mustCancel then
+    -- CancelledError is thrown at the current await point
+    match k.pc with
+    | .done => (s, [])
+    | .waitDl _ e => ((s.finallyBlock loc e).finish t (.cancelled t), [.cancelled t])
+    | _ => (s.finish t (.cancelled t), [.cancelled t])
+  else
+    match k.pc with
+    | .done => (s, [])
+    | .init => s.lookupLoop t loc
+    | .waitEvt _ => s.lookupLoop t loc       -- woken: check the cache again
+    | .waitDl d e =>
+        match (s.mon.dls[d]?).bind (·.outcome) with
+        | none => (s, [])
+        | some v =>
+            -- store the result if the marker is still ours, then the finally block, then loop
+            ((s.storeIfOurs loc e v).finallyBlock loc e).lookupLoop t loc
 
 /-- run the handle at the head of the ready queue -/
 def stepHead (s : St) : St × List Ev :=
   match s.ready with
   | [] => (s, [])
   | t :: rest =>
-    let s := { s with ready := rest }
     match s.ts[t]? with
-    | none => (s, [])
-    | some k =>
-      let loc := s.locOf t
-      if k.mustCancel then
-        -- CancelledError is thrown at the current await point
-        match k.pc with
-        | .done => (s, [])
-        | .waitDl _ e =>
-            let s := s.finallyBlock loc e
-            (({ s with ts := s.ts.modify t fun _ => { pc := .done, mustCancel := false } }).emit (.cancelled t), [.cancelled t])
-        | _ =>
-            (({ s with ts := s.ts.modify t fun _ => { pc := .done, mustCancel := false } }).emit (.cancelled t), [.cancelled t])
-      else
-        match k.pc with
-        | .done => (s, [])
-        | .init => s.lookupLoop t loc
-        | .waitEvt _ => s.lookupLoop t loc       -- woken: check the cache again
-        | .waitDl d e =>
-            match (s.mon.dls[d]?).bind (·.outcome) with
-            | none => (s, [])                     -- not completed: cannot be in the ready queue
-            | some v =>
-                -- store the result if the marker is still ours, then the finally block, then loop
-                let s := if PyDict.get? s.cache loc = some (.marker e)
-                         then { s with cache := PyDict.set s.cache loc (.result v) } else s
-                let s := s.finallyBlock loc e
-                s.lookupLoop t loc
+    | none => ({ s with ready := rest }, [])
+    | some k => if s.blocked k then (s, []) else stepTask { s with ready := rest } t k
 
 def outstanding (s : St) (d : Nat) : Bool :=
   match s.mon.dls[d]? with
